@@ -27,6 +27,8 @@ def constructor_class(fx, path):
         return 'identity-constant'
     if tr == 'std::convert::From' and nm == 'from':
         return 'conversion'
+    if (tr == 'CurveAffine' and nm == 'into_projective') or (tr == 'CurveProjective' and nm == 'into_affine'):
+        return 'conversion'      # every conversion entry point is decided by C01's conversion rules
     R = roles.roles(fx)
     if path in (R['G1'].get('get_generator'), R['G2'].get('get_generator')):
         return 'generator-constant'
